@@ -302,3 +302,72 @@ Section Consistent.
       rewrite En', Eb'. reflexivity.
   Qed.
 End Consistent.
+
+(* C03, detection: whatever the tree looks like now, relative to the loaded histories --
+   an altered file (its bytes no longer hash to the first original digest recorded for its path) is named and gives 11;
+   an unrecorded file is named and gives 21 unless something was altered; a recorded path that is neither visited nor
+   ignored is named and gives a non-zero code (10 unless 11 / 21 take precedence). *)
+Section Detection.
+  Variable Hb : fmt -> bytes -> bytes.
+  Variable matches : list text -> text -> bool.
+  Variable C : Type.
+  Variable cdig : C -> text.
+
+  Theorem altered_file_detected t hs ipats ifile p c e r :
+    load C cdig t = inl hs ->
+    In (p, c) (ev_files (events matches C (set_patterns (latest_patterns (lh_gens (root_hist hs))) ipats (pattern_file_lines ifile)) [] t)) ->
+    reference hs p = Some e -> e_digest e <> digest_text Hb (e_fmt e) c ->
+    verify_result Hb matches C cdig false t ipats ifile = Some r ->
+    vr_code r = 11%Z /\ In p (vr_mismatch r).
+  Proof.
+    intros Hl Hin Hr Hd Hv. pose proof (verify_exit_selection Hb matches C cdig t ipats ifile r Hv) as Hcode.
+    assert (Hg : lh_gens (root_hist hs) <> []) by (intros E; unfold verify_result in Hv; rewrite Hl, E in Hv; discriminate).
+    pose proof (verify_reports Hb matches C cdig t ipats ifile hs Hl Hg) as Hrep. cbn zeta in Hrep. destruct Hrep as [Hbad _].
+    assert (Hp : In p (o_mismatch (snd (verify_like Hb matches C cdig false t None ipats ifile)))) by (apply Hbad; exists c, e; auto).
+    unfold verify_result in Hv. rewrite Hl in Hv. destruct (lh_gens (root_hist hs)) as [|g0 gs] eqn:Eg; [congruence|].
+    destruct (o_outcome (snd (verify_like Hb matches C cdig false t None ipats ifile))) as [code|] eqn:Eo; [|discriminate].
+    injection Hv as <-. cbn [vr_code vr_mismatch vr_new vr_missing] in *. split; [|exact Hp].
+    destruct (o_mismatch (snd (verify_like Hb matches C cdig false t None ipats ifile))); [destruct Hp|exact Hcode].
+  Qed.
+
+  Theorem new_file_detected t hs ipats ifile p c r :
+    load C cdig t = inl hs ->
+    In (p, c) (ev_files (events matches C (set_patterns (latest_patterns (lh_gens (root_hist hs))) ipats (pattern_file_lines ifile)) [] t)) ->
+    reference hs p = None ->
+    verify_result Hb matches C cdig false t ipats ifile = Some r ->
+    In p (vr_new r) /\ (vr_code r = 11%Z \/ vr_code r = 21%Z) /\ (vr_mismatch r = [] -> vr_code r = 21%Z).
+  Proof.
+    intros Hl Hin Hr Hv. pose proof (verify_exit_selection Hb matches C cdig t ipats ifile r Hv) as Hcode.
+    assert (Hg : lh_gens (root_hist hs) <> []) by (intros E; unfold verify_result in Hv; rewrite Hl, E in Hv; discriminate).
+    pose proof (verify_reports Hb matches C cdig t ipats ifile hs Hl Hg) as Hrep. cbn zeta in Hrep. destruct Hrep as [_ Hnew].
+    assert (Hp : In p (o_new (snd (verify_like Hb matches C cdig false t None ipats ifile)))) by (apply Hnew; exists c; auto).
+    unfold verify_result in Hv. rewrite Hl in Hv. destruct (lh_gens (root_hist hs)) as [|g0 gs] eqn:Eg; [congruence|].
+    destruct (o_outcome (snd (verify_like Hb matches C cdig false t None ipats ifile))) as [code|] eqn:Eo; [|discriminate].
+    injection Hv as <-. cbn [vr_code vr_mismatch vr_new vr_missing] in *. split; [exact Hp|].
+    destruct (o_new (snd (verify_like Hb matches C cdig false t None ipats ifile))) as [|n0 ns]; [destruct Hp|].
+    destruct (o_mismatch (snd (verify_like Hb matches C cdig false t None ipats ifile))); split; auto; intros; congruence.
+  Qed.
+
+  Theorem missing_entry_detected t hs ipats ifile q r :
+    load C cdig t = inl hs ->
+    let spec := set_patterns (latest_patterns (lh_gens (root_hist hs))) ipats (pattern_file_lines ifile) in
+    In q (expected_paths hs) -> ~ In q (visited (events matches C spec [] t)) -> ignored matches spec q = false ->
+    verify_result Hb matches C cdig false t ipats ifile = Some r ->
+    In q (vr_missing r) /\ vr_code r <> 0%Z /\ (vr_mismatch r = [] -> vr_new r = [] -> vr_code r = 10%Z).
+  Proof.
+    intros Hl. cbn zeta. intros Hexp Hnv Hign Hv. pose proof (verify_exit_selection Hb matches C cdig t ipats ifile r Hv) as Hcode.
+    assert (Hg : lh_gens (root_hist hs) <> []) by (intros E; unfold verify_result in Hv; rewrite Hl, E in Hv; discriminate).
+    assert (Hq : In q (o_missing (snd (verify_like Hb matches C cdig false t None ipats ifile)))).
+    { unfold verify_like. rewrite Hl. destruct (lh_gens (root_hist hs)) as [|g0 gs] eqn:Eg; [congruence|]. cbn [snd o_missing]. apply sorted_paths_In. unfold missing. apply filter_In. split.
+      - unfold diff_paths. apply filter_In. split; [exact Hexp|]. apply negb_true_iff.
+        destruct (mem_path q (visited (events matches C (set_patterns (latest_patterns (g0 :: gs)) ipats (pattern_file_lines ifile)) [] t))) eqn:Em; [|reflexivity].
+        apply mem_path_In in Em. contradiction.
+      - rewrite Hign. reflexivity. }
+    unfold verify_result in Hv. rewrite Hl in Hv. destruct (lh_gens (root_hist hs)) as [|g0 gs] eqn:Eg; [congruence|].
+    destruct (o_outcome (snd (verify_like Hb matches C cdig false t None ipats ifile))) as [code|] eqn:Eo; [|discriminate].
+    injection Hv as <-. cbn [vr_code vr_mismatch vr_new vr_missing] in *. split; [exact Hq|].
+    destruct (o_missing (snd (verify_like Hb matches C cdig false t None ipats ifile))) as [|m0 ms]; [destruct Hq|].
+    destruct (o_mismatch (snd (verify_like Hb matches C cdig false t None ipats ifile))), (o_new (snd (verify_like Hb matches C cdig false t None ipats ifile)));
+      rewrite Hcode; split; try discriminate; intros; congruence.
+  Qed.
+End Detection.
